@@ -1285,6 +1285,7 @@ func (n *node) handleProposals() (bool, error) {
 	}
 	paused := logDBBusy || n.rateLimited
 	if entries := n.incomingProposals.get(paused); len(entries) > 0 {
+		n.qs.record(pb.Propose)
 		if err := n.p.ProposeEntries(entries); err != nil {
 			return false, err
 		}
